@@ -586,6 +586,10 @@ def _havoc(I, ctl, node, env, spec, k):
                 continue
             ty = ctl.con.self_spec.fields.get(f)
             if ty is None:
+                aux = ctl.con.self_spec.aux_fields().get(f)
+                if aux is not None:
+                    ty = aux[0]  # an attribute beside the declared state: any value of its inferred type
+            if ty is None:
                 raise Unsupported(f"loop assigns unknown field self.{f}")
             self_obj.fields[f] = ty.fresh(I, f"self.{f}@loop{k}")
     # effects inside proof-mode loops are summarised by ghost state named in the invariant
